@@ -478,12 +478,14 @@ def render_loop_contract(loop, probe_labels):
     return lines
 
 
-def lift_closure(text, name, captures, where):
+def lift_closure(text, name, captures, where, free=False, generics=""):
     """R25 (closure conversion): `let mut NAME = |PARAMS| { BODY };` inside a function is removed, its calls
     `NAME(args)` become `Self::verif_closure_NAME(CAPTURE_ARGS, args)`, and the closure becomes the associated
     function `fn verif_closure_NAME(CAPTURE_PARAMS, PARAMS) { BODY }` (body verbatim). `captures` lists the
     captured variables as (name, parameter type, argument expression); a capture that is missing from the list
-    makes the lifted function fail to compile. Returns (parent_text, lifted_text)."""
+    makes the lifted function fail to compile. A closure return type (`|| -> T { .. }`) is carried over; `free`
+    drops the `Self::` prefix (closure inside a free function) and `generics` repeats the parent's generic
+    parameters on the lifted function. Returns (parent_text, lifted_text)."""
     m = re.search(r"let\s+(mut\s+)?%s\s*=\s*\|" % re.escape(name), text)
     if not m:
         raise Undecided("%s: R25 closure `%s` not found" % (where, name))
@@ -496,12 +498,15 @@ def lift_closure(text, name, captures, where):
     pairs = rustlex.match_brackets(toks)
     bstart = None
     bend = None
+    mret = re.match(r"\s*->\s*([^{]*?)\s*\{", text[p1 + 1:])
+    ret_ty = mret.group(1) if mret else None
+    scan_from = p1 + 1 + (mret.end() - 1 if mret else 0)
     for i, t in enumerate(toks):
-        if t.start >= p1 + 1 and t.text == "{":
+        if t.start >= scan_from and t.text == "{":
             bstart = t.start
             bend = toks[pairs[i]].end
             break
-        if t.start >= p1 + 1 and t.kind != "ws" and t.text != "{" and t.text.strip():
+        if t.start >= scan_from and t.kind != "ws" and t.text != "{" and t.text.strip():
             break
     if bstart is None:
         raise Undecided("%s: R25 closure `%s`: body is not a block" % (where, name))
@@ -513,11 +518,13 @@ def lift_closure(text, name, captures, where):
     body = text[bstart:bend]
     parent = text[:m.start()] + "// (closure `%s` lifted: R25)" % name + text[stmt_end:]
     cap_args = ", ".join(c[2] for c in captures)
-    parent, n = re.subn(r"\b%s\(" % re.escape(name), "Self::verif_closure_%s(%s, " % (name, cap_args), parent)
+    prefix = "" if free else "Self::"
+    parent, n = re.subn(r"\b%s\(" % re.escape(name), "%sverif_closure_%s(%s, " % (prefix, name, cap_args), parent)
     if n == 0:
         raise Undecided("%s: R25 closure `%s` is never called" % (where, name))
     cap_params = ", ".join("%s: %s" % (c[0], c[1]) for c in captures)
-    lifted = "fn verif_closure_%s(%s, %s)\n%s\n" % (name, cap_params, params.strip().rstrip(","), body)
+    lifted = "fn verif_closure_%s%s(%s, %s)%s\n%s\n" % (name, generics, cap_params, params.strip().rstrip(","),
+                                                        (" -> " + ret_ty) if ret_ty else "", body)
     return parent, lifted
 
 
@@ -529,7 +536,8 @@ def extract_fn_text(fn):
     text = sf.text[it.start:it.end]
     lift = getattr(fn, "lift", None)
     if lift:
-        parent, lifted = lift_closure(text, lift["closure"], lift["captures"], "%s::%s" % (fn.file, fn.key))
+        parent, lifted = lift_closure(text, lift["closure"], lift["captures"], "%s::%s" % (fn.file, fn.key),
+                                      free=lift.get("free", False), generics=lift.get("generics", ""))
         text = parent if lift["part"] == "parent" else lifted
     return sf, it, text
 
